@@ -250,6 +250,81 @@ def make(targets, jobs=16, timeout=3000, keep_going=False):
         return 124, "make timed out"
 
 
+def prop_files(pid, depends=()):
+    """The .v files that belong to a property (plus the shared Lib and the
+    properties it declares it depends on)."""
+    ids = [pid] + list(depends)
+    out = []
+    for f in vfiles():
+        base = os.path.basename(f)
+        if f == "Lib/Prelude.v" or any(base.startswith(i + "_") or base == i + ".v" for i in ids):
+            out.append(f)
+    return out
+
+
+def mini_make(files, jobs=8, timeout=COQC_TIMEOUT):
+    """Dependency-ordered, incremental, parallel compilation of exactly these
+    files (full .vo builds with coqc).  Isolated per property, so a broken file
+    of another property cannot break this one.  Returns (rc, output, compiled)."""
+    from concurrent.futures import ThreadPoolExecutor
+    files = sorted(set(files))
+    rc, out = sh(["coqdep", "-Q", ".", "Boltons"] + files, cwd=COQ, timeout=120)
+    deps = {}
+    for line in out.splitlines():
+        m = re.match(r"^(\S+)\.vo\b[^:]*:\s*(.*)$", line)
+        if not m:
+            continue
+        tgt = m.group(1) + ".v"
+        ds = [d[:-1] for d in m.group(2).split() if d.endswith(".vo")]
+        deps[tgt] = [d for d in ds if d != tgt]
+    missing = [f for f in files if f not in deps]
+    if missing:
+        return 1, "coqdep produced no rule for %s\n%s" % (missing, out[-2000:]), []
+    log, compiled, done, failed = [], [], set(), None
+    fileset = set(files)
+
+    def stale(f):
+        vo = os.path.join(COQ, f + "o")
+        if not os.path.exists(vo):
+            return True
+        t = os.path.getmtime(vo)
+        if os.path.getmtime(os.path.join(COQ, f)) > t:
+            return True
+        for d in deps[f]:
+            dvo = os.path.join(COQ, d + "o")
+            if d in compiled or not os.path.exists(dvo) or os.path.getmtime(dvo) > t:
+                return True
+        return False
+
+    remaining = list(files)
+    while remaining:
+        ready = [f for f in remaining if all((d not in fileset) or (d in done) for d in deps[f])]
+        if not ready:
+            return 1, "dependency cycle or missing dependency among %s" % remaining, compiled
+        todo = [f for f in ready if stale(f)]
+        for f in todo:
+            for d in deps[f]:
+                if d not in fileset and not os.path.exists(os.path.join(COQ, d + "o")):
+                    return 1, "%s depends on %s which is not built and not part of this property" % (f, d), compiled
+        with ThreadPoolExecutor(max_workers=jobs) as ex:
+            outs = list(ex.map(lambda f: coqc(os.path.join(COQ, f), timeout), todo))
+        for f, (r, o) in zip(todo, outs):
+            log.append("COQC %s%s" % (f, "" if r == 0 else " FAILED"))
+            if r != 0:
+                log.append(o[-3000:])
+                failed = failed or f
+                vo = os.path.join(COQ, f + "o")
+                if os.path.exists(vo):
+                    os.remove(vo)
+            else:
+                compiled.append(f)
+        if failed:
+            return 1, "\n".join(log), compiled
+        done.update(ready)
+        remaining = [f for f in remaining if f not in done]
+    return 0, "\n".join(log), compiled
+
+
 FORBIDDEN = re.compile(
     r"\b(Admitted|admit|Axiom|Axioms|Parameter|Parameters|Conjecture|Conjectures|"
     r"Admit Obligations|bypass_check|Unset Guard Checking|Unset Positivity Checking|"
